@@ -10,9 +10,13 @@ import ast
 import json
 import os
 
+from sa.cfg import cfg_of
+from sa.facts import result_sites
+from sa.guards import GuardView
+from sa.index import AnalysisError
 from sa.report import Ctx
 from sa.stutter import stutter_paths
-from sa.undefined import implicit_none_paths, possibly_undefined, undefined_names
+from sa.undefined import implicit_none_paths, possibly_undefined, undefined_names, uninitialised_fields
 
 HERE = os.path.dirname(os.path.dirname(os.path.abspath(__file__)))
 
@@ -332,6 +336,44 @@ def generic_sweeps(ctx: Ctx, stutter: bool = True, skip_stutter_modules: tuple =
                     n_sent += 1
                     ctx.ob(g + "9", "R41 OPTIONAL-MEANS-NONE", f, f"optional parameter `{prm.arg}` defaults to None", False, f"it defaults to the private sentinel `{d.id}`: a caller that passes None explicitly (the 'not given' value of every other optional parameter here, forwarded as such by wrappers) now has None taken as a real value", node=d)
     ctx.ob(g + "9", "R41 OPTIONAL-MEANS-NONE", None, f"no public function of the anchor files replaces None by a private sentinel as the 'not given' default ({n_opt} optional parameters default to None)", n_sent == 0, "", rel=mods[0].rel, fname="<anchor files>")
+    # R44: a constructor assigns each of its fields on every path to a normal return
+    n_init = n_uninit = 0
+    for m in mods:
+        for q in sorted(m.funcs):
+            f = m.funcs[q]
+            if f.name != "__init__" or f.parent is not None:
+                continue
+            n_init += 1
+            for fld, rn in uninitialised_fields(f):
+                n_uninit += 1
+                ctx.ob(g + "11", "R44 FIELDS-INITIALISED", f, f"`self.{fld}` is assigned on every path through {q}", False, "some path returns without assigning it: objects built along that path raise AttributeError (or keep a stale class default) when a method reads the field", node=rn.ast if rn.ast is not None else f.node)
+    ctx.ob(g + "11", "R44 FIELDS-INITIALISED", None, f"the {n_init} constructors of the anchor files assign their fields on every path", n_uninit == 0, "", rel=mods[0].rel, fname="<anchor files>")
+    # R43: the empty answer (an empty literal as solution, with a success status) is given only for an empty or
+    # degenerate question - some guard of the site says so (`n == 0`, `not matrix`, `n <= 1`, `x is None`, all-zero)
+    import re as _re
+
+    n_triv = 0
+    empt = _re.compile(r"^(0 == [\w.\[\]()]+|F:[^(]*|[\w.]+ <= 1|[\w.]+ < 1|.* is None|OR\(F:.*|T:all\(.*== 0.*)$")
+    for m in mods:
+        for q in sorted(m.funcs):
+            f = m.funcs[q]
+            try:
+                sites = result_sites(f)
+            except AnalysisError:
+                continue
+            if not sites:
+                continue
+            gvf = GuardView(cfg_of(f.node))
+            for s_ in sites:
+                sol = s_.arg("solution")
+                if sol is None or ast.unparse(sol) not in ("()", "[]", "{}", "set()", "tuple()", "dict()", "list()"):
+                    continue
+                if not (set(s_.statuses) & {"OPTIMAL", "FEASIBLE"}):
+                    continue
+                n_triv += 1
+                at = gvf.guard_atoms(s_.node, stable_only=False, after_loops=False)
+                ctx.ob(g + "10", "R43 TRIVIAL-ANSWER-GATE", f, f"the empty answer `Result({ast.unparse(sol)}, ...)` is given only for an empty or degenerate input", any(empt.match(a) for a in at), f"guards {sorted(at)}: none of them says the input is empty - a non-empty instance answered with the empty solution loses every item / node / variable of the input", node=s_.call)
+    ctx.count("empty-answer sites (R43)", n_triv)
     infrastructure(ctx, g + "7")
     validators_used(ctx, mods, g + "7")
     ctx.count("functions swept (R31/R22)", n_funcs)
